@@ -1021,3 +1021,90 @@ Proof.
     cbn [String.eqb Ascii.eqb Bool.eqb orb] in H'; exact H' |]).
   contradiction.
 Qed.
+
+Lemma decorate_ok b : forall n e, (esize e < n)%nat -> supportedb e = true ->
+  exists d, decorate b e = Some d /\ dec_ok b e d.
+Proof.
+  induction n as [|n IH]; intros e Hn Hs; [lia|].
+  destruct e as [c txt qv qp|s|c l].
+  - eexists; split; [reflexivity|]. apply dec_ok_num. exact Hs.
+  - eexists; split; [reflexivity|]. apply dec_ok_sym.
+  - rewrite supportedb_app in Hs. apply andb_prop in Hs. destruct Hs as [Hall Hc].
+    rewrite esize_app in Hn.
+    assert (IHa : forall a, In a l -> exists d, decorate b a = Some d /\ dec_ok b a d).
+    { intros a Ha. apply IH; [pose proof (esizes_in a l Ha); lia|]. eapply forallb_in; eauto. }
+    rewrite decorate_app_eq. cbv zeta.
+    destruct (String.eqb c "Add" || String.eqb c "Mul") eqn:Ham.
+    + (* Add / Mul *)
+      assert (Hcc : c = "Add" \/ c = "Mul").
+      { apply orb_prop in Ham. destruct Ham as [H|H]; apply String.eqb_eq in H; auto. }
+      apply Nat.leb_le in Hc.
+      destruct l as [|a0 [|a1 r]]; [simpl in Hc; lia|simpl in Hc; lia|].
+      destruct (IHa a0 (or_introl eq_refl)) as [d0 [E0 K0]].
+      destruct (IHa a1 (or_intror (or_introl eq_refl))) as [d1 [E1 K1]].
+      assert (Hgen : exists d,
+                 match a0 :: a1 :: r with
+                 | [] => Some (D0 c c 0 VNone)
+                 | [a0] => d0 <- decorate b a0 ;; Some (D1 c c 1 VNone d0)
+                 | [a0; a1] => d0 <- decorate b a0 ;; d1 <- decorate b a1 ;; Some (D2 c c 2 VNone d0 d1)
+                 | a0 :: rest =>
+                   if String.eqb c "Add" || String.eqb c "Mul"
+                   then d0 <- decorate b a0 ;; d1 <- decorate b (EApp c rest) ;;
+                        Some (D2 c c (length (a0 :: a1 :: r)) VNone d0 d1)
+                   else None
+                 end = Some d /\ dec_ok b (EApp c (a0 :: a1 :: r)) d).
+      { destruct r as [|a2 r].
+        - rewrite E0, E1. cbn [obind]. eexists; split; [reflexivity|]. apply dec_ok_bin2; assumption.
+        - rewrite Ham, E0. cbn [obind].
+          assert (Hr : exists dr, decorate b (EApp c (a1 :: a2 :: r)) = Some dr /\ dec_ok b (EApp c (a1 :: a2 :: r)) dr).
+          { apply IH.
+            - rewrite esize_app. simpl in Hn |- *. pose proof (esize a0). destruct a0; simpl in *; lia.
+            - rewrite supportedb_app, Ham. simpl in Hall |- *. apply andb_prop in Hall. destruct Hall as [_ Hall].
+              rewrite Hall. reflexivity. }
+          destruct Hr as [dr [Er Kr]]. rewrite Er. cbn [obind].
+          eexists; split; [reflexivity|].
+          apply (dec_ok_nary b c a0 (a1 :: a2 :: r) d0 dr); auto. simpl. lia. }
+      destruct Hcc as [-> | ->].
+      * cbn [String.eqb Ascii.eqb Bool.eqb]. exact Hgen.
+      * cbn [String.eqb Ascii.eqb Bool.eqb].
+        destruct r as [|a2 r]; [|destruct a1; exact Hgen].
+        destruct a1 as [c1 t1 q1 q1'|s1|c1 l1]; try exact Hgen.
+        destruct (String.eqb c1 "Pow") eqn:Hp; [|exact Hgen]. apply String.eqb_eq in Hp. subst c1.
+        assert (Hs1 : supportedb (EApp "Pow" l1) = true) by (eapply forallb_in; [exact Hall|simpl; auto]).
+        rewrite supportedb_app in Hs1. apply andb_prop in Hs1. destruct Hs1 as [Hall1 Hl1].
+        cbn [String.eqb Ascii.eqb Bool.eqb orb] in Hl1. apply Nat.eqb_eq in Hl1.
+        destruct l1 as [|u [|w [|? ?]]]; try discriminate Hl1.
+        destruct (eq_int w (-1)) eqn:Hw; [|exact Hgen].
+        assert (Hu : exists du, decorate b u = Some du /\ dec_ok b u du).
+        { apply IH.
+          - simpl in Hn |- *. lia.
+          - simpl in Hall1. apply andb_prop in Hall1. tauto. }
+        destruct Hu as [du [Eu Ku]]. rewrite E0, Eu. cbn [obind].
+        eexists; split; [reflexivity|]. apply dec_ok_div; assumption.
+    + destruct (String.eqb c "Pow") eqn:Hp.
+      * (* Pow *)
+        apply String.eqb_eq in Hp. subst c. apply Nat.eqb_eq in Hc.
+        destruct l as [|a0 [|a1 [|? ?]]]; try discriminate Hc.
+        destruct (IHa a0 (or_introl eq_refl)) as [d0 [E0 K0]].
+        destruct (IHa a1 (or_intror (or_introl eq_refl))) as [d1 [E1 K1]].
+        destruct (eq_int a1 2 && mem "square" (b1 b)) eqn:H2.
+        { apply andb_prop in H2. rewrite E0. cbn [obind]. eexists; split; [reflexivity|].
+          apply dec_ok_pow1; [assumption|]. left. tauto. }
+        destruct (eq_int a1 3 && mem "cube" (b1 b)) eqn:H3.
+        { apply andb_prop in H3. rewrite E0. cbn [obind]. eexists; split; [reflexivity|].
+          apply dec_ok_pow1; [assumption|]. right. left. tauto. }
+        destruct (eq_half a1 && (mem "sqrt" (b1 b) || mem "sqrt_abs" (b1 b))) eqn:Hh.
+        { apply andb_prop in Hh. rewrite E0. cbn [obind]. eexists; split; [reflexivity|].
+          apply dec_ok_pow1; [assumption|]. right. right. left. tauto. }
+        destruct (eq_int a1 (-1) && mem "inv" (b1 b)) eqn:Hi.
+        { apply andb_prop in Hi. rewrite E0. cbn [obind]. eexists; split; [reflexivity|].
+          apply dec_ok_pow1; [assumption|]. right. right. right. tauto. }
+        rewrite E0, E1. cbn [obind]. eexists; split; [reflexivity|]. apply dec_ok_pow2; assumption.
+      * (* a one-argument class *)
+        apply andb_prop in Hc. destruct Hc as [Hm Hl]. apply Nat.eqb_eq in Hl. apply mem_In in Hm.
+        destruct l as [|a0 [|? ?]]; try discriminate Hl.
+        destruct (IHa a0 (or_introl eq_refl)) as [d0 [E0 K0]].
+        assert (Hnm : String.eqb c "Mul" = false).
+        { apply orb_false_elim in Ham. tauto. }
+        rewrite Hnm, E0. cbn [obind]. eexists; split; [reflexivity|]. apply dec_ok_un; assumption.
+Qed.
